@@ -135,6 +135,9 @@ func (g *p01Gen) call() {
 	if g.calleeKind >= 7 && g.calleeKind <= 9 {
 		callText = "\tx = callee(x, y)" // two parameters
 	}
+	if g.calleeKind >= 11 {
+		callText = "\tx, y = callee(y)" // two results, neither an error nor an ok flag
+	}
 	callLine := g.emit(callText)
 	arg := g.y
 	switch g.annA {
@@ -161,6 +164,12 @@ func (g *p01Gen) call() {
 		ret = g.gval()
 	case 10: // recursive: callee(a) returns callee(nil) behind an opaque flag, else a
 		ret = ndIteBool(g.calleeFlag, true, arg)
+	case 11: // callee(a) returns (a, nil)
+		ret = arg
+		g.y = true
+	case 12: // callee(a) returns (nil, a)
+		ret = true
+		g.y = arg
 	case 7: // callee(a, b) returns b
 		ret = g.y
 	case 8: // callee(a, b) dereferences a, returns b
@@ -238,6 +247,16 @@ func (g *p01Gen) emitCallee() int {
 	}
 	if len(anns) > 0 {
 		g.emit("// " + strings.Join(anns, ", "))
+	}
+	if g.calleeKind >= 11 {
+		g.calleeFirst = g.emit("func callee(a *int) (*int, *int) {")
+		if g.calleeKind == 11 {
+			g.emit("\treturn a, nil")
+		} else {
+			g.emit("\treturn nil, a")
+		}
+		g.calleeLast = g.emit("}")
+		return calleeDeref
 	}
 	if g.calleeKind == 10 {
 		g.calleeFirst = g.emit("func callee(a *int) *int {")
